@@ -11,7 +11,7 @@ from pathlib import Path
 V = Path(__file__).resolve().parent.parent
 PROP_OF = [  # (regex on commit subject, property)
     (r"Evaluator\.close\(\)|own copy of a submitted configuration", "C01"), (r"gather_other_jobs_done collects", "C14"),
-    (r"aggregators keep the array namespace", "C19"), (r"queued evaluators", "C17"), (r"utopia point", "C05"),
+    (r"aggregators keep the array namespace|entropy of MixedCategoricalAggregator", "C19"), (r"search\(\) returns None when this search wrote no results", "C04"), (r"MedianStopper keeps the best", "C16"), (r"queued evaluators", "C17"), (r"utopia point", "C05"),
     (r"MixedNormalAggregator|MeanAggregator|ModeAggregator", "C19"), (r"GreedySelector", "C20"),
     (r"strict max_evals offset|cap on submitted jobs", "C03"), (r"evaluator timeout", "C03/C14"),
     (r"number of objectives from the first non-failed|non-finite value to a failure", "C04/C06"),
